@@ -65,8 +65,10 @@ def _callers_index(E: Engine, callables: list[Callable_]) -> dict[str, list[tupl
 _SITE_NODE: dict = {}
 
 
-def _caller_compensated(E: Engine, c: Callable_, regions: set, raises: set, callers: dict) -> bool:
-    """Every external call site of ``c`` sits in a try whose re-raising handler restores ``regions``."""
+def _caller_compensated(E: Engine, c: Callable_, regions: set, raises: set, callers: dict, depth: int = 0) -> bool:
+    """Every external call site of ``c`` sits in a try whose re-raising handler restores ``regions`` -- at the site
+    itself or, when the site is in a private helper that lets the exception through, at every call site of that helper
+    (an extracted helper is part of its caller)."""
     sites = [s for s in callers.get(c.key, []) if s[0].call.key != c.key]
     if not sites:
         return False
@@ -76,8 +78,12 @@ def _caller_compensated(E: Engine, c: Callable_, regions: set, raises: set, call
             esc, restored = fl.escape(node, exc)
             if not esc:
                 continue
-            if not regions <= {(o, f) for o, f, _recv in restored}:
-                return False
+            if regions <= {(o, f) for o, f, _recv in restored}:
+                continue
+            host = fl.call
+            if depth < 3 and host.fn.name.startswith("_") and not host.fn.name.startswith("__") and _caller_compensated(E, host, regions, {(_fn, exc)}, callers, depth + 1):
+                continue
+            return False
     return True
 
 
